@@ -73,6 +73,15 @@ def cases(tier, rng):
         orders = [rng.choice([1, 1, 2, 2, 3]) for _ in range(rng.randint(3, 8))]
         ds = tributary_star(orders)
         yield {"k": 804, "args": [ds, nets.topo_order(ds), [0], []], "call": {"api": rng.choice(["vec", "ras"])}, "group": "star-api"}
+    # very wide confluences (only possible in the 1-D vector class): the number of upstream nodes exceeds what a narrow
+    # counter can hold
+    for ntrib in ([127, 128, 129, 130, 200, 256, 257, 300] if tier == "quick" else list(range(120, 140)) + [200, 255, 256, 257, 258, 300, 384, 385, 513]):
+        for tail in (0, 1):
+            # node 0: pit; with tail: hub = 1 drains to 0; tributaries drain to the hub
+            hub = 1 if tail else 0
+            ds = ([0, 0] if tail else [0]) + [hub] * ntrib
+            for typ in (804, 805):
+                yield {"k": typ, "args": [ds, nets.topo_order(ds), [0], []], "call": {"api": "vec", "pre": None}, "group": "wide-star"}
     nrand = 200 if tier == "quick" else 2000
     for t in range(nrand):
         n = rng.randint(2, 60 if t % 3 else 10)
